@@ -263,6 +263,7 @@ def rule_count_survives_reads(ctx):
     ctx.floor("C04.h reader paths", n, 5)
 
 
+from .c08 import rule_executemany  # noqa: E402  (every row of an executemany batch is executed: a batch read twice is empty the second time)
 from .c05 import rule_reset  # noqa: E402  (after a failed statement rowcount is None, not the previous statement's count)
 from .c16 import rule_nop  # noqa: E402  (a statement wrongly no-op'd changes no rows and reports no count)
 
@@ -327,6 +328,7 @@ def rule_executemany_count(ctx):
 
 
 RULES = [
+    ("C04.j", rule_executemany, ("quick", "thorough")),
     ("C04.i", rule_reset, ("quick", "thorough")),
     ("C04.h", rule_count_survives_reads, ("quick", "thorough")),
     ("C04.g", rule_executemany_count, ("quick", "thorough")),
